@@ -207,7 +207,8 @@ def build_cf1d(r: dict) -> Built:
             polys.append([(x0, y0), (x1, y0), (x1, y1), (x0, y1)])
             centres.append((F(lon[i]), F(lat[j])))
     b = Built(r, ds, 'cf1d', grids, 'face', polys, centres)
-    b.extra = {'latb': latb, 'lonb': lonb, 'geom_names': [lonname, latname] + (
+    b.extra = {'latb': latb, 'lonb': lonb, 'names': {'lat': latname, 'lon': lonname, 'ydim': ydim, 'xdim': xdim},
+               'geom_names': [lonname, latname] + (
         [lonname + '_bnds', latname + '_bnds'] if bounds != 'none' else [])}
     b.vars = _add_vars(ds, grids, r.get('vars', []), r.get('sizes_extra', {}))
     b.ds = ds
@@ -327,6 +328,8 @@ def build_cf2d(r: dict) -> Built:
     for j in range(ny):
         for i in range(nx):
             cs = [node(j, i), node(j, i + 1), node(j + 1, i + 1), node(j + 1, i)]
+            if [j, i] in r.get('twist', []) or (j, i) in r.get('twist', []):
+                cs = [cs[0], cs[2], cs[1], cs[3]]     # bow-tie: self-intersecting stored corners
             corners[j, i] = cs
             if (j, i) not in holes:
                 m = _mean(cs)
@@ -382,7 +385,9 @@ def build_cf2d(r: dict) -> Built:
     grids = {'face': ((ydim, xdim), (ny, nx))}
     b = Built(r, ds, r['conv'], grids, 'face', polys, centres)
     b.extra = {'holes': sorted(holes), 'geom_names': [lonname, latname] + (
-        [lonname + '_bounds', latname + '_bounds'] if bounds == 'stored' else [])}
+        [lonname + '_bounds', latname + '_bounds'] if bounds == 'stored' else []),
+        'cx': cx, 'cy': cy, 'corners': corners if bounds == 'stored' else None,
+        'names': {'lat': latname, 'lon': lonname, 'ydim': ydim, 'xdim': xdim}}
     b.vars = _add_vars(ds, grids, r.get('vars', []), r.get('sizes_extra', {}))
     b.ds = ds
     return b
@@ -402,6 +407,8 @@ def random_cf2d(rng: random.Random, conv: str = 'cf2d', max_n: int = 6, holes: b
     if holes and ny * nx >= 4 and rng.random() < 0.6:
         cells = [(j, i) for j in range(ny) for i in range(nx)]
         r['holes'] = [list(c) for c in rng.sample(cells, rng.randint(1, max(1, ny * nx // 4)))]
+    if kw.get('twist') and r['bounds'] == 'stored' and rng.random() < 0.5:
+        r['twist'] = [[rng.randrange(ny), rng.randrange(nx)]]
     return r
 
 
@@ -449,7 +456,8 @@ def build_shoc_standard(r: dict) -> Built:
             polys.append(None if any(c is None for c in cs) else cs)
             centres.append(face[j][i])
     b = Built(r, ds, 'shoc_standard', grids, 'face', polys, centres)
-    b.extra = {'geom_names': ['x_centre', 'y_centre', 'x_grid', 'y_grid', 'x_left', 'y_left', 'x_back', 'y_back']}
+    b.extra = {'geom_names': ['x_centre', 'y_centre', 'x_grid', 'y_grid', 'x_left', 'y_left', 'x_back', 'y_back'],
+               'nodes': nodes, 'face': face, 'left': left, 'back': back}
     b.vars = _add_vars(ds, grids, r.get('vars', []), r.get('sizes_extra', {}))
     b.ds = ds
     return b
